@@ -352,7 +352,13 @@ func (f *frame) havocModsT(h *Heap, mods map[string]bool, all bool, touched map[
 			e.havocHeapComp(h, k)
 		}
 	}
-	for k, refs := range touched {
+	var tks []string
+	for k := range touched {
+		tks = append(tks, k)
+	}
+	sort.Strings(tks)
+	for _, k := range tks {
+		refs := touched[k]
 		if !all && !mods[k] && !modsPattern(mods, k) {
 			continue
 		}
